@@ -461,7 +461,10 @@ def bounded_filter_sort(tier, seed):
     def E(p, t, ty, nr):
         return Entry(process=p, process_sweeper=None, time=t, level=0, iter=1, sweep=1, type=ty, num_restarts=nr)
 
-    keys = [E(p, t, ty, nr) for p in (0, 1) for t in (0.0, 0.5) for ty in ('u', '_recomputed') for nr in (0, 1, 2)]
+    def Mk(t, nr):  # the restart markers as DefaultHooks writes them: no slot, level, iteration or sweep
+        return Entry(process=-1, process_sweeper=None, time=t, level=-1, iter=-1, sweep=-1, type='_recomputed', num_restarts=nr)
+
+    keys = [E(p, t, ty, nr) for p in (0, 1) for t in (0.0, 0.5) for ty in ('u', '_recomputed') for nr in (0, 1, 2)] + [Mk(t, nr) for t in (0.0, 0.5) for nr in (0, 1, 2)]
     top = 3 if tier == 'quick' else 4
     n = bad = 0
     first = []
@@ -477,7 +480,10 @@ def bounded_filter_sort(tier, seed):
         for j, i in enumerate(idx):
             k = keys[i]
             stats[k] = (bool((i + j) % 2) if k.type == '_recomputed' else float(i))
-        for kw in (dict(), dict(type='u'), dict(type='u', time=0.5), dict(process=1), dict(type='u', recomputed=False), dict(recomputed=False), dict(type='_recomputed', recomputed=False)):
+        for kw in (dict(), dict(type='u'), dict(type='u', time=0.5), dict(process=1), dict(type='u', recomputed=False), dict(recomputed=False), dict(type='_recomputed', recomputed=False),
+                   # recomputed values filtered out TOGETHER with further keys (the markers carry none of them)
+                   dict(type='u', recomputed=False, process=0), dict(type='u', recomputed=False, level=0), dict(recomputed=False, process=1), dict(type='u', recomputed=False, time=0.5),
+                   dict(type='u', recomputed=False, iter=1, sweep=1)):
             n += 1
             got = filter_stats(dict(stats), **kw)
             want = spec_filter(stats, **kw)
@@ -513,7 +519,7 @@ def bounded_filter_sort(tier, seed):
               model=dict(first=first) if bad else None, reason='', path=0, counted=False)
     return dict(contract='bounded:stats_helper.filter_stats/sort_stats', prop='C14', inst={}, label='bounded', kind='bounded', obligations=[ob], canaries=[], paths=1, status='ok',
                 bounded=dict(what='filter_stats (plain keys and recomputed=False) / sort_stats / get_sorted / get_list_of_types against their specification',
-                             bound=f'dictionaries with <= {top} entries over 24 keys (2 slots x 2 times x 2 types x 3 restart generations)', cases=n, failures=bad))
+                             bound=f'dictionaries with <= {top} entries over 30 keys (2 slots x 2 times x 2 types x 3 restart generations, plus slot-less restart markers), 12 keyword combinations', cases=n, failures=bad))
 
 
 class _ErrBase(_HookBase):
